@@ -84,6 +84,31 @@ Proof.
 Qed.
 Print Assumptions C21_refuted.
 
+(** ---- order independence for ALL row sets with distinct timestamps is refuted by NaN prices ---- *)
+Definition C21_order_full : Prop := forall cd nacc rows rows' w, Permutation rows rows' -> rows_ok rows ->
+  NoDup (map b_t rows) -> (exists r, In r rows /\ truncate cd (b_t r) = w) ->
+  f32_eq (c_h (window_candle cd nacc w rows)) (c_h (window_candle cd nacc w rows')) = true.
+
+Definition C21_nan_tick (t : Z) : bar :=
+  let p := f32_of_bits 0x7fc00000 in {| b_t := t; b_o := p; b_h := p; b_l := p; b_c := p; b_acc := [] |}.
+
+(** [NaN, 1]: the first price initialises High = NaN and [1 > NaN] is false; [1, NaN]: High = 1 *)
+Theorem C21_order_refuted : ~ C21_order_full.
+Proof.
+  intros H.
+  set (a := C21_nan_tick (1599999970 * NS)). set (b := C21_tick (1599999980 * NS) 1).
+  specialize (H (cd_of 1 "Min"%string) 0%nat [a; b] [b; a] (1599999960 * NS) (perm_swap b a [])).
+  assert (OK : rows_ok [a; b]).
+  { split; [|vm_compute; discriminate]. intros r [E|[E|[]]]; subst r; cbn [a b b_t C21_tick C21_nan_tick]; vm_compute; discriminate. }
+  assert (ND : NoDup (map b_t [a; b])).
+  { cbn [map a b b_t C21_tick C21_nan_tick]. repeat constructor; cbn [In]; intros K;
+      repeat (destruct K as [K|K]; [vm_compute in K; discriminate K|]); exact K. }
+  assert (EX : exists r, In r [a; b] /\ truncate (cd_of 1 "Min"%string) (b_t r) = 1599999960 * NS).
+  { exists a. split; [left; reflexivity | vm_compute; reflexivity]. }
+  specialize (H OK ND EX). vm_compute in H. discriminate H.
+Qed.
+Print Assumptions C21_order_refuted.
+
 (** Non-vacuity: a concrete non-trivial input meets the hypotheses of C21_candle / C21_order_independent. *)
 Example C21_nonvacuous :
   let rows := [C21_tick (1599999970 * NS) 10; C21_tick (1600000019 * NS) 12; C21_tick (1599999990 * NS) 7;
